@@ -428,9 +428,11 @@ Proof. exact expand_build. Qed.
 Definition sgood (req : Z) (s : sstate) (m : Z) : Prop :=
   m <= k_n s /\ (req < m \/ (k_eof s = true /\ m = k_n s)).
 
+(* invariant of the machine of the tree (GateGt) *)
 Definition sinv (req headers : Z) (s : sstate) : Prop :=
   (k_eof s = true -> match k_box s with Some (m, _) => m = k_n s | None => k_wn s = k_n s end) /\
-  (k_lost s = false -> k_edge s = false ->
+  (k_edge s = false) /\
+  (k_lost s = false ->
      match k_off s with
      | Some o => o = req /\ k_box s = None /\ k_eof s = false
      | None =>
@@ -441,19 +443,19 @@ Definition sinv (req headers : Z) (s : sstate) : Prop :=
      end).
 
 Lemma sinv_init req headers w0 : sinv req headers (sinit req w0).
-Proof. unfold sinv, sinit; cbn. split; [discriminate|]. intros _ _. auto. Qed.
+Proof. unfold sinv, sinit; cbn. split; [discriminate|]. split; [reflexivity|]. intros _. auto. Qed.
 
 Lemma orb_false_l2 a b : a || b = false -> a = false /\ b = false.
 Proof. destruct a, b; cbn; auto; discriminate. Qed.
 
 Lemma sinv_step req headers l s s' :
-  sinv req headers s -> sstep true req headers l s = Some s' -> sinv req headers s'.
+  sinv req headers s -> sstep GateGt req headers l s = Some s' -> sinv req headers s'.
 Proof.
   destruct s as [n spin off box wn woff eof lost edge]. unfold sinv, sgood. cbn.
-  intros [IE IO] H. destruct l; cbn in H.
+  intros (IE & IK & IO) H. subst edge. destruct l; cbn in H.
   - (* GLine *)
-    destruct eof; [discriminate|]. injection H as <-. cbn. split; [discriminate|].
-    intros Hl He. specialize (IO Hl He). destruct off as [o|].
+    destruct eof; [discriminate|]. injection H as <-. cbn. split; [discriminate|]. split; [reflexivity|].
+    intros Hl. specialize (IO Hl). destruct off as [o|].
     + exact IO.
     + destruct box as [[m [o|]]|].
       * destruct IO as (-> & Hm & [Hr|[Hf _]]); [|discriminate]. repeat split; auto; lia.
@@ -461,37 +463,38 @@ Proof.
       * destruct IO as (k & (Hk & [Hr|[Hf _]]) & Hw); [|discriminate]. exists k. repeat split; auto; lia.
   - (* GTick *)
     destruct eof; [discriminate|].
-    destruct ((0 <? n) && (req <=? n)) eqn:Eg; [|injection H as <-; cbn; split; auto].
-    apply andb_true_iff in Eg as [Eg1 Eg2]. apply Z.ltb_lt in Eg1. apply Z.leb_le in Eg2.
+    destruct ((0 <? n) && (req <? n)) eqn:Eg; [|injection H as <-; cbn; repeat split; auto].
+    apply andb_true_iff in Eg as [Eg1 Eg2]. apply Z.ltb_lt in Eg1. apply Z.ltb_lt in Eg2.
     destruct spin as [i|]; injection H as <-; cbn; (split; [discriminate|]).
-    + intros Hl He. apply orb_false_l2 in Hl as [Hl Hc]. apply orb_false_l2 in He as [He Hq].
-      specialize (IO Hl He). destruct off as [o|].
-      * destruct IO as (-> & -> & _). apply Z.eqb_neq in Hq. split; [reflexivity|]. split; [lia|]. left; lia.
-      * destruct box as [[m [o|]]|]; cbn in Hc; try discriminate.
-        -- destruct IO as (k & (Hk & [Hr|[Hf _]]) & Hw); [|discriminate]. exists k. repeat split; auto.
-        -- destruct IO as (k & (Hk & [Hr|[Hf _]]) & Hw); [|discriminate]. exists k. repeat split; auto.
-    + intros Hl He. specialize (IO Hl He). exact IO.
+    + split.
+      * destruct off; [|reflexivity]. apply Z.eqb_neq. lia.
+      * intros Hl. apply orb_false_l2 in Hl as [Hl Hc]. specialize (IO Hl). destruct off as [o|].
+        -- destruct IO as (-> & -> & _). split; [reflexivity|]. split; [lia|]. left; lia.
+        -- destruct box as [[m [o|]]|]; cbn in Hc; try discriminate.
+           ++ destruct IO as (k & (Hk & [Hr|[Hf _]]) & Hw); [|discriminate]. exists k. repeat split; auto.
+           ++ destruct IO as (k & (Hk & [Hr|[Hf _]]) & Hw); [|discriminate]. exists k. repeat split; auto.
+    + split; [reflexivity|]. intros Hl. specialize (IO Hl). exact IO.
   - (* GEof *)
-    destruct eof; [discriminate|]. injection H as <-. cbn. split; [reflexivity|].
-    intros Hl He. apply orb_false_l2 in Hl as [Hl Hc]. specialize (IO Hl He). destruct off as [o|].
+    destruct eof; [discriminate|]. injection H as <-. cbn. split; [reflexivity|]. split; [reflexivity|].
+    intros Hl. apply orb_false_l2 in Hl as [Hl Hc]. specialize (IO Hl). destruct off as [o|].
     + destruct IO as (-> & -> & _). split; [reflexivity|]. split; [lia|]. right; auto.
     + destruct box as [[m [o|]]|]; cbn in Hc; try discriminate.
       * destruct IO as (k & (Hk & [Hr|[Hf _]]) & Hw); [|discriminate]. exists k. repeat split; auto.
       * destruct IO as (k & (Hk & [Hr|[Hf _]]) & Hw); [|discriminate]. exists k. repeat split; auto.
   - (* RDisplay *)
-    destruct box as [[m o]|]; [|discriminate]. injection H as <-. cbn. split.
+    destruct box as [[m o]|]; [|discriminate]. injection H as <-. cbn. split; [|split; [reflexivity|]].
     + intro Hf. specialize (IE Hf). exact IE.
-    + intros Hl He. specialize (IO Hl He). destruct off as [o'|].
+    + intros Hl. specialize (IO Hl). destruct off as [o'|].
       * destruct IO as (_ & Hb & _). discriminate.
       * destruct o as [v|].
         -- destruct IO as (-> & Hg). exists m. split; [exact Hg|reflexivity].
         -- exact IO.
 Qed.
 
-Lemma sinv_run req headers sched : forall s, sinv req headers s -> sinv req headers (srun true req headers sched s).
+Lemma sinv_run req headers sched : forall s, sinv req headers s -> sinv req headers (srun GateGt req headers sched s).
 Proof.
   induction sched as [|l r IH]; intros s Hs; cbn; [exact Hs|].
-  apply IH. destruct (sstep true req headers l s) as [s'|] eqn:E; [eapply sinv_step; eauto|exact Hs].
+  apply IH. destruct (sstep GateGt req headers l s) as [s'|] eqn:E; [eapply sinv_step; eauto|exact Hs].
 Qed.
 
 Lemma constrain_enough req headers k n : req < k -> k <= n ->
@@ -503,19 +506,23 @@ Proof.
 Qed.
 
 (* the window ends up at the requested place, whatever the timing of lines, ticks, end of output and redraws,
-   unless a pending result was replaced in the mailbox (k_lost) or a partial result was published with exactly
-   `req` lines (k_edge) *)
+   unless a pending result was replaced in the mailbox (k_lost) *)
 Theorem scroll_offset_applied_proof : forall req headers w0 sched,
-  let s := srun true req headers sched (sinit req w0) in
-  sdone s = true -> k_lost s = false -> k_edge s = false ->
+  let s := srun GateGt req headers sched (sinit req w0) in
+  sdone s = true -> k_lost s = false ->
   k_wn s = k_n s /\ k_woff s = final_offset req headers (k_n s).
 Proof.
-  intros req headers w0 sched s Hd Hl He.
-  pose proof (sinv_run req headers sched _ (sinv_init req headers w0)) as [IE IO]. fold s in IE, IO.
+  intros req headers w0 sched s Hd Hl.
+  pose proof (sinv_run req headers sched _ (sinv_init req headers w0)) as (IE & _ & IO). fold s in IE, IO.
   unfold sdone in Hd. apply andb_true_iff in Hd as [Hf Hb].
-  destruct (k_box s) as [b|] eqn:Eb; [discriminate|]. specialize (IE Hf). specialize (IO Hl He).
+  destruct (k_box s) as [b|] eqn:Eb; [discriminate|]. specialize (IE Hf). specialize (IO Hl).
   split; [exact IE|]. destruct (k_off s) as [o|].
   - destruct IO as (_ & _ & Hx). congruence.
   - destruct IO as (k & (Hk & Hg) & Hw). rewrite Hw. unfold final_offset.
     destruct Hg as [Hr|[_ ->]]; [apply constrain_enough; auto|reflexivity].
 Qed.
+
+(* with the `>` condition a partial result is never published with exactly `req` lines *)
+Theorem scroll_no_edge_proof : forall req headers w0 sched,
+  k_edge (srun GateGt req headers sched (sinit req w0)) = false.
+Proof. intros. apply (sinv_run req headers sched _ (sinv_init req headers w0)). Qed.
